@@ -1125,7 +1125,7 @@ class _Forward:
                 self._split_unpack(fn, old)
                 self._thread_flags(mod, q, fn, old)
                 for _ in range(60):
-                    new = [x for x in _stored_locals(fn) if x not in old]
+                    new = [x for x in _stored_locals(fn) if x not in old and not x.startswith("received__")]     # (queue reads hoisted on purpose stay statements)
                     if not new or not any([self._try(mod, q, fn, x) for x in new]):
                         break
 
@@ -2025,6 +2025,40 @@ def _mirror_induction_attr(mods: dict[str, Module], inv: dict, log: list[str]) -
                 ast.fix_missing_locations(fn)
                 n += 1
                 log.append(f"{mod.relpath}:{lp.lineno} {q}: induction variable `{v}` mirrors `{atxt}`; loop read as `for _ in range({ast.unparse(count)})` advancing the attribute")
+
+
+def _hoist_queue_reads(mods: dict[str, Module], log: list[str]) -> None:
+    """`return xs[self._in_queue.get()]` is `v = self._in_queue.get(); return xs[v]` when the queue read is what the statement evaluates first (only loads of names and
+    of their attributes come before it): the thread model steps a queue operation only when it is a statement's own value."""
+    n = 0
+    uid = 0
+    for mod in mods.values():
+        for q, _, fn in _functions_of(mod):
+            for owner in ast.walk(fn):
+                for fld in ("body", "orelse", "finalbody"):
+                    blk = getattr(owner, fld, None)
+                    if not (isinstance(blk, list) and blk and isinstance(blk[0], ast.stmt)):
+                        continue
+                    i = 0
+                    while i < len(blk):
+                        s = blk[i]
+                        v = getattr(s, "value", None) if isinstance(s, (ast.Return, ast.Assign, ast.AnnAssign, ast.Expr)) else None
+                        if v is not None and not isinstance(v, ast.Call):
+                            cs = [x for x in ast.walk(v) if isinstance(x, ast.Call)]
+                            plain = not any(isinstance(x, (ast.Lambda, ast.GeneratorExp, ast.ListComp, ast.SetComp, ast.DictComp, ast.IfExp, ast.BoolOp, ast.NamedExpr, ast.Await, ast.Yield)) for x in ast.walk(v))
+                            first = cs[0] if len(cs) == 1 and plain else None      # the only call of a conditional-free expression: everything else is a load
+                            if isinstance(first, ast.Call) and isinstance(first.func, ast.Attribute) and first.func.attr in ("get", "get_nowait") and "queue" in ast.unparse(first.func.value).lower():
+                                uid += 1
+                                tmp = f"received__{uid}"
+                                pre = ast.copy_location(ast.Assign(targets=[ast.Name(id=tmp, ctx=ast.Store())], value=first), s)
+                                _replace_node(s, first, ast.copy_location(ast.Name(id=tmp, ctx=ast.Load()), first))
+                                ast.fix_missing_locations(pre)
+                                blk.insert(i, pre)
+                                i += 1
+                                n += 1
+                        i += 1
+    if n:
+        log.append(f"{n} queue read(s) hoisted out of the expression they feed")
 
 
 def _fuse_nested_comprehensions(mods: dict[str, Module], log: list[str]) -> None:
@@ -3679,6 +3713,7 @@ def canonicalise(mods: dict[str, Module]) -> dict:
     inl = Inliner(mods, inv)
     inl.run()
     fwd_log: list[str] = []
+    _hoist_queue_reads(mods, fwd_log)
     _split_chain_loops(mods, fwd_log)
     _records_across_calls(mods, inv, fwd_log)
     _scalarise_records(mods, inv, fwd_log)
